@@ -19,6 +19,7 @@ import (
 	"path/filepath"
 	"strings"
 	"syscall"
+	"time"
 
 	"github.com/rogpeppe/go-internal/cache"
 
@@ -66,12 +67,18 @@ type scenario struct {
 	// NoVerify: the entry is stored through PutNoVerify (which differs from Put
 	// only in a debugging cross-check; everything the statement says holds for it)
 	NoVerify bool `json:"no_verify,omitempty"`
+	// Aged: every file of the start state was last written (and looked at) six
+	// days ago
+	Aged bool `json:"aged,omitempty"`
 }
 
 func (s scenario) String() string {
 	nv := ""
 	if s.NoVerify {
 		nv = " via PutNoVerify"
+	}
+	if s.Aged {
+		nv += " start-state-six-days-old"
 	}
 	return fmt.Sprintf("%s size=%d put-to=%s%s", s.Start, s.Size, idName[s.Target], nv)
 }
@@ -156,6 +163,15 @@ func setup(dir string, tmpl *cache.Cache, s scenario) {
 	if !strings.HasPrefix(s.Start, "S4-") && !strings.HasPrefix(s.Start, "S5-") {
 		look()
 	}
+	if s.Aged {
+		old := time.Now().Add(-6 * 24 * time.Hour)
+		filepath.Walk(dir, func(p string, info os.FileInfo, err error) error {
+			if err == nil && info.Mode().IsRegular() {
+				os.Chtimes(p, old, old)
+			}
+			return nil
+		})
+	}
 }
 
 func scenarios(th bool) []scenario {
@@ -168,28 +184,35 @@ func scenarios(th bool) []scenario {
 	}
 	for _, st := range []string{"S0-empty", "S1-other-entries", "S2-overwrite-different-length", "S2-overwrite-same-length", "S2-same-content-again", "S5-index-present-output-trimmed"} {
 		for _, sz := range append(sizes, big) {
-			out = append(out, scenario{st, sz, false, 0, false})
+			out = append(out, scenario{st, sz, false, 0, false, false})
 		}
 	}
 	for _, st := range []string{"S2-overwrite-empty", "S6-same-content-under-other-id", "S6-same-content-under-other-id-and-overwrite", "S6-same-content-under-other-id-after-repair"} {
 		for _, sz := range []int{1, 40, big} {
-			out = append(out, scenario{st, sz, false, 0, false})
+			out = append(out, scenario{st, sz, false, 0, false, false})
 		}
 	}
 	for _, st := range []string{"S3-partial-output-0", "S3-partial-output-1", "S3-partial-output-n-1"} {
 		for _, sz := range []int{2, 40, big} {
-			out = append(out, scenario{st, sz, false, 0, false})
+			out = append(out, scenario{st, sz, false, 0, false, false})
 		}
 	}
 	for _, st := range []string{"S4-damaged-same-size", "S4-damaged-longer", "S4-damaged-shorter-wrong"} {
 		for _, sz := range []int{2, 40} {
-			out = append(out, scenario{st, sz, true, 0, false})
+			out = append(out, scenario{st, sz, true, 0, false, false})
+		}
+	}
+	// a start state that has not been touched for six days (older than the limit
+	// after which Trim would remove it, not yet trimmed)
+	for _, st := range []string{"S2-same-content-again", "S6-same-content-under-other-id", "S2-overwrite-same-length", "S1-other-entries"} {
+		for _, sz := range []int{2, 40} {
+			out = append(out, scenario{Start: st, Size: sz, Aged: true})
 		}
 	}
 	// the other exported way of storing
 	for _, st := range []string{"S0-empty", "S2-overwrite-same-length", "S2-same-content-again", "S6-same-content-under-other-id", "S4-damaged-same-size"} {
 		for _, sz := range []int{2, 40} {
-			out = append(out, scenario{st, sz, st == "S4-damaged-same-size", 0, true})
+			out = append(out, scenario{st, sz, st == "S4-damaged-same-size", 0, true, false})
 		}
 	}
 	return out
